@@ -1083,3 +1083,16 @@ v("d110-coalesce-array-operand-c01", "C01", PB, "        if isinstance(a, numpy.
 
 v("d111-fmax-bare-ufunc", "C05", PB, "            \"fmax\": lambda a, b: self._ignoring_missing(numpy.fmax, a, b),\n", "")
 v("d111-fmin-not-refilled", "C05", PB, "            res = res.fillna(self._coalesce(a, b))\n", "            pass\n")
+
+v("d112-join-term-unqualified", "C08", SM, "                terms[ci] = right_qqn + \".\" + self.quote_identifier(ci)", "                terms[ci] = None")
+v("d112-join-term-unqualified-c01", "C01", SM, "                terms[ci] = left_qqn + \".\" + self.quote_identifier(ci)", "                terms[ci] = None")
+
+UT = "util.py"
+v("d113-all-missing-typed-by-first-cell", "C16", UT, "    if len(good_idx) < 1:\n        return type(None)  # all entries missing: no type carried (a NaN is not evidence of a float column)\n    return map_type_to_canonical(type(col[good_idx[0]]))",
+  "    test_idx = 0\n    if len(good_idx) > 0:\n        test_idx = good_idx[0]\n    return map_type_to_canonical(type(col[test_idx]))")
+v("d114-join-empty-untyped", "C16", PB, "            return self.pd.DataFrame(\n                {\n                    k: (left[k] if k in left.columns else right[k])\n                    for k in op.columns_produced()\n                }\n            )",
+  "            return self.pd.DataFrame({k: [] for k in op.columns_produced()})")
+v("d114-extend-empty-untyped", "C03", PB, "            v_dict = {k: res[k] for k in res.columns}  # the incoming columns keep their types", "            v_dict = {k: [] for k in res.columns}")
+v("d114-polars-b2r-empty-untyped", "C17", PM, "            return data.select(\n                [pl.col(c) for c in blocks_in.record_keys]\n                + [pl.col(source_col[c]).alias(c) for c in blocks_in.content_keys]\n            )",
+  "            return pl.DataFrame({c: [] for c in blocks_in.row_columns})")
+v("d114-project-group-col-untyped", "C03", PB, "                res[g] = self.pd.Series([], dtype=group_col_types[g])", "                res[g] = []")
